@@ -36,13 +36,16 @@ CONFIGS = {
     "alloc": (["--no-default-features", "--features", "alloc,easy-functions"], REL),
     "unsafe_fnv": (["--features", "unsafe,opt-reduce-fnv-table"], REL),
     "all": (["--features", "unsafe,opt-reduce-fnv-table,strict-parser"], REL),
+    # the branches build.rs selects for a rustc older than 1.67 (`u64_ilog2` written by hand); the cfg of the current compiler stays set
+    # as well, and every `cfg_if!` of the crate tests the fallback value first
+    "msrv": ([], REL + ' --cfg ffuzzy_ilog2="fallback"'),
 }
 
 # Body counts confirmed on the pinned tree (fail closed below ~90 % of them:
 # a build that silently analysed a different / partial crate must not pass).
 BODY_FLOOR = {
     "dbg": 340, "rel": 340, "unsafe": 360, "unsafe_dbg": 360, "unchecked": 360,
-    "fnv": 340, "strict": 340, "strict_dbg": 340, "nodef": 310, "alloc": 320, "unsafe_fnv": 360, "all": 360,
+    "fnv": 340, "strict": 340, "strict_dbg": 340, "nodef": 310, "alloc": 320, "unsafe_fnv": 360, "all": 360, "msrv": 340,
 }
 
 
